@@ -144,6 +144,69 @@ def evalS (ε : Env) : Expr CFloat → Info → Option (List CFloat × Info)
   | .pi, i => some ([CFloat.ofReal CFloat.piF], noteScale i (CFloat.ofReal CFloat.piF))
   | .number z, i => some ([z], noteScale i z)
 
+
+/-- `evalS` when no base lies exactly on the cut: a single reading, no lists (the fast path; `none` as soon as a base
+on the cut is met, and then `evalS` is used). Same flags, same scale. -/
+def evalI (ε : Env) : Expr CFloat → Info → Option (CFloat × Info)
+  | .call f e, i =>
+    match evalI ε e i with
+    | none => none
+    | some (v, i) =>
+      match f with
+      | .sqrt =>
+        match base v i with
+        | ([b], i) => let r := CFloat.sqrt b; some (r, noteScale i r)
+        | _ => none
+      | .cis =>
+        let c := CFloat.cos v
+        let sn := CFloat.sin v
+        let r := CFloat.cis v
+        let noise := fin r && fin c && fin sn && mag r ≤ 1e-6 * (if mag c < mag sn then mag sn else mag c)
+        let i := if noise then { i with cutNear := true } else i
+        some (r, noteScale i r)
+      | _ => let r := calcFn f v; some (r, noteScale i r)
+  | .bin l op r, i =>
+    match evalI ε l i with
+    | none => none
+    | some (a, i) =>
+      match evalI ε r i with
+      | none => none
+      | some (b, i) =>
+        match op with
+        | .caret =>
+          match base a i with
+          | ([a'], i) =>
+            let singular := a'.1 == 0.0 && a'.2 == 0.0 && !(b.1 == 0.0 && b.2 == 0.0) && b.1.abs ≤ 1e-9 * mag b
+            let i := if singular then { i with cutNear := true } else i
+            let v := CFloat.pow a' b
+            some (v, noteScale i v)
+          | _ => none
+        | _ =>
+          let v := calcInfix a op b
+          let noise := (op == .plus || op == .minus) &&
+            !(v.1 == 0.0 && v.2 == 0.0) && fin v && mag v ≤ 1e-6 * (if mag a < mag b then mag b else mag a)
+          let i := if noise then { i with cutNear := true } else i
+          some (v, noteScale i v)
+  | .pre op e, i =>
+    match evalI ε e i with
+    | none => none
+    | some (v, i) => match op with
+      | .minus => some (CFloat.sub (0.0, 0.0) v, i)
+      | .plus => some (v, i)
+  | .var n, i => (ε.rho n).map fun v => (v, noteScale i v)
+  | .address r, i =>
+    match ε.mu r.name with
+    | none => none
+    | some vs => (vs[r.index]?).map fun v => (v, noteScale i v)
+  | .pi, i => some (CFloat.ofReal CFloat.piF, noteScale i (CFloat.ofReal CFloat.piF))
+  | .number z, i => some (z, noteScale i z)
+
+/-- `evalS`, through the fast path when possible -/
+def evalSF (ε : Env) (e : Expr CFloat) : Option (List CFloat × Info) :=
+  match evalI ε e {} with
+  | some (v, i) => some ([v], i)
+  | none => evalS ε e {}
+
 /-- `|a - b| ≤ 1e-9·max(|a|,|b|) + 1e-12·max(1, scale)`, both finite.  The second term is the absolute floor
 (rounding noise around an exact 0, e.g. `sin(pi)`), proportional to the largest intermediate value of either
 evaluation (cancellation after re-association). -/
@@ -166,7 +229,7 @@ inductive Verdict where
 * a base exactly on the cut: some reading of e must be close to some reading of e' (counted; also counted:
   whether the implementation's raw values then differ, i.e. a conjugate-branch result). -/
 def valueVerdict (ε : Env) (e out : Expr CFloat) (vo vs : Option CFloat) : Verdict :=
-  match vo, vs, evalS ε e {}, evalS ε out {} with
+  match vo, vs, evalSF ε e, evalSF ε out with
   | some vo, some vs, some (os, io), some (ss, is) =>
     let scale := if io.scale < is.scale then is.scale else io.scale
     -- some reading of e agrees with some reading of e': close, or non-finite on both sides
